@@ -139,8 +139,8 @@ func init() {
 func init() {
 	reg(&propCfg{
 		ID:      "C09",
-		Pkgs:    []string{"head", "."},
-		Lenient: []string{"head", "cbc", "dsig", "uuid", "."},
+		Pkgs:    []string{"head", ".", "internal/cli"},
+		Lenient: []string{"head", "cbc", "dsig", "uuid", ".", "internal/cli"},
 		Stages: []stage{
 			{Name: "header-relation", Harness: `^H_C09_Contains`},
 			{Name: "verification", Harness: `^H_C09_(Verify|Cli)`},
